@@ -1445,13 +1445,13 @@ fn sub_cfi_register_context(_tier: Tier) -> Sub {
     )
 }
 
-const NFK: u64 = 14;
+const NFK: u64 = 16;
 
 fn sub_cfi_params(_tier: Tier) -> Sub {
     let cfgs: Vec<Cfg> = vec![Cfg { version: 4, fmt64: false, asz: 8, big: false }, Cfg { version: 4, fmt64: false, asz: 4, big: true }, Cfg { version: 4, fmt64: true, asz: 8, big: false }, Cfg { version: 4, fmt64: true, asz: 4, big: true }];
     let kinds: Vec<(bool, u8)> = vec![(false, 1), (false, 3), (false, 4), (true, 1)];
     let len = NFK * kinds.len() as u64 * cfgs.len() as u64;
-    Sub::new("cfi-parameters", len, "14 CIE/FDE parameter kits (two FDEs on one CIE, two CIEs, FDE length >= 2^32 (8-byte addresses), return address register 200, augmentations zR(pcrel|sdata4) / zR(udata4) / zPLR / zS / zL with LSDA, personality absptr, CIE without FDE, initial instructions with advance, GNU_args_size 2^32+1) x section {.debug_frame v1/v3/v4, .eh_frame v1} x 4 configs", move |ctx, i| {
+    Sub::new("cfi-parameters", len, "16 CIE/FDE parameter kits (zLR with an LSDA encoding different from the FDE address encoding, both ways; two FDEs on one CIE, two CIEs, FDE length >= 2^32 (8-byte addresses), return address register 200, augmentations zR(pcrel|sdata4) / zR(udata4) / zPLR / zS / zL with LSDA, personality absptr, CIE without FDE, initial instructions with advance, GNU_args_size 2^32+1) x section {.debug_frame v1/v3/v4, .eh_frame v1} x 4 configs", move |ctx, i| {
         let mut x = Mix(i);
         let k = x.take(NFK);
         let (eh, ver) = *x.pick(&kinds);
@@ -1534,6 +1534,21 @@ fn sub_cfi_params(_tier: Tier) -> Sub {
             12 => {
                 m.fdes[0].insns.push(Cfa::GnuArgsSize(0x1_0000_0001));
                 "args_size-2^32+1"
+            }
+            14 | 15 => {
+                if !eh {
+                    ctx.outcome("cfip:augmentation-only-for-eh_frame");
+                    return;
+                }
+                // the LSDA encoding differs from the FDE address encoding
+                let (l, r) = if k == 14 { (EH_PE_PCREL | EH_PE_SDATA4, EH_PE_UDATA4) } else { (EH_PE_UDATA4, EH_PE_PCREL | EH_PE_SDATA4) };
+                m.cies[0].aug = Aug { fde_enc: Some(r), lsda_enc: Some(l), personality: None, signal: false };
+                m.fdes[0].lsda = Some(0x3300);
+                if k == 14 {
+                    "zLR:L=pcrel|sdata4,R=udata4"
+                } else {
+                    "zLR:L=udata4,R=pcrel|sdata4"
+                }
             }
             _ => {
                 m.fdes[0].insns = vec![Cfa::AdvanceLoc(4), Cfa::OffsetExtendedSf(3, i64::MIN / 4)];
